@@ -93,6 +93,12 @@ def inputs(ctx, res):
             # wrong pad octets
             for po in (0, 1, bs - 1, bs, 200, 255):
                 yield 'reenc-pad', craft_sk(crypto, first, encrypt_inner(crypto, inner, iv, pad_octet=po)), False, crypto
+    # 4b. cleartext (no SK payload) of every exchange-type class under a key context: only IKE_SA_INIT may pass
+    for exch in (0, 1, 33, 34, 35, 36, 37, 38, 99, 255):
+        for first, body in ((0, b''), (41, bytes([0, 0, 0, 8, 0, 0, 0x40, 0x07]))):
+            d = bytes(8) + rng.rbytes(8) + bytes([first, 0x20, exch, rng.choice([0, 8, 0x20, 0x28])]) + bytes(4) + \
+                (28 + len(body)).to_bytes(4, 'big') + body
+            yield 'keyed-cleartext', d, False, toy[0]
     # 5. correctly MACed SK payloads with malformed sizes
     for crypto in toy + reals:
         bs = crypto.cipher.block_size
